@@ -37,7 +37,7 @@ RULE = (
     "to_iterable, to_set, to_dict, first, last, single, first/last/single_or_default, all, some, contains, is_empty, "
     "sequence_equal against an observable and against an iterable; forms with a seed/default and sequence_equal are drawn 2-5 times as often) "
     "with generated parameters (seed/default absent, None or any value; hash/truthiness/constant predicates or none; "
-    "hash key mappers; key-equality comparers; subtraction-style comparers incl. a reversed one) over a finite timeline "
+    "hash key mappers; key-equality comparers, plus an asymmetric key(element) < key(value) comparer for contains whose reference is any(comparer(element, value)) -- failures that vanish under swapped arguments get the signature contains:comparer-arg-order; subtraction-style comparers incl. a reversed one) over a finite timeline "
     "of 0..8 (quick) / 0..14 (thorough) elements ending in completion or error from a cold, synchronous-cold or hot "
     "(subscribed mid-stream) virtual-time source; numeric aggregates with default arithmetic draw from the numeric values "
     "(incl. 0, 0.0, False, True), everything else from the full domain (half of the cases from a 1-4 value sub-pool). "
@@ -55,7 +55,7 @@ RULE = (
     "Distinct = distinct case JSON."
 )
 ASSUMPTIONS = [
-    "user callbacks are total pure functions; equality comparers are symmetric equivalence relations; ordering comparers are subtraction of total integer keys",
+    "user callbacks are total pure functions; equality comparers are symmetric equivalence relations except the asymmetric one used for contains (argument order element, value grounded in the docstring example and Rx.NET); distinct / distinct_until_changed (C05) and sequence_equal keep symmetric comparers because no docstring or test fixes their argument order; ordering comparers are subtraction of total integer keys",
     "hot sources: events at or before the subscription tick are not part of the input",
     "an iterable second sequence of sequence_equal is delivered at the subscription tick",
     "average on empty input may fail with any operator-created exception (the repository tests only require an error)",
@@ -101,6 +101,7 @@ _W = [
     ("some_pred", 1),
     ("contains", 1),
     ("contains_comparer", 1),
+    ("contains_comparer_asym", 2),
     ("is_empty", 1),
     ("sequence_equal_obs", 3),
     ("sequence_equal_obs_comparer", 1),
@@ -127,6 +128,14 @@ def _subcmp(spec):
         return lambda x, y: y - x
     k = hkey(spec["m"])
     return lambda x, y: k(x) - k(y)
+
+
+def _asym(spec, swapped=False):
+    """{"lt": m}: asymmetric comparer(element, searched value) = key(element) < key(value)."""
+    k = hkey(spec["lt"])
+    if swapped:
+        return lambda v, e: k(e) < k(v)
+    return lambda e, v: k(e) < k(v)
 
 
 def _rank(spec):
@@ -223,6 +232,8 @@ def _build(lab, form, a, second):
         return ops.contains(dval(a["value"]))
     if form == "contains_comparer":
         return ops.contains(dval(a["value"]), mk_eq(a["cmp"]))
+    if form == "contains_comparer_asym":
+        return ops.contains(dval(a["value"]), _asym(a["cmp"]))
     if form == "is_empty":
         return ops.is_empty()
     if form.startswith("sequence_equal"):
@@ -416,6 +427,16 @@ def _oracle(form, a, E, term, S, second):
         v = dval(a["value"])
         ok = [i for i, x in enumerate(xs) if eq(x, v)]
         exp = at(ok[0], True) if ok else agg(False)
+    elif form == "contains_comparer_asym":
+        # reference: any(comparer(element, value) for element in xs) -- the comparer receives the
+        # element first and the searched value second (docstring example, Rx.NET comparer.Equals(v, value))
+        cmp = _asym(a["cmp"], swapped=bool(a.get("_swapped")))
+        v = dval(a["value"])
+        ok = [i for i, x in enumerate(xs) if cmp(x, v)]
+        other = [i for i, x in enumerate(xs) if cmp(v, x)]
+        if ok[:1] != other[:1]:
+            cls.append("b:arg-order-matters")
+        exp = at(ok[0], True) if ok else agg(False)
     elif form == "is_empty":
         exp = at(0, False) if n else agg(True)
     elif form.startswith("sequence_equal"):
@@ -444,7 +465,13 @@ def _oracle(form, a, E, term, S, second):
 
 
 def _run(case):
-    return run_case(case, _build, _oracle)
+    res = run_case(case, _build, _oracle)
+    if not res.ok and case["form"] == "contains_comparer_asym" and not case["args"].get("_swapped"):
+        # root cause: does the trace agree with the reference when the comparer arguments are swapped?
+        sw = dict(case, args=dict(case["args"], _swapped=True))
+        if run_case(sw, lambda lab, form, a, second: _build(lab, form, case["args"], second), _oracle).ok:
+            res.sig = "contains:comparer-arg-order"
+    return res
 
 
 # ---------------------------------------------------------------------------------------
@@ -489,6 +516,8 @@ def _args(draw, form):
         return {"value": draw(st.sampled_from(NAMES))}
     if form == "contains_comparer":
         return {"value": draw(st.sampled_from(NAMES)), "cmp": {"m": draw(st.integers(2, 6))}}
+    if form == "contains_comparer_asym":
+        return {"value": draw(st.sampled_from(NAMES)), "cmp": {"lt": draw(st.integers(3, 7))}}
     if form.startswith("sequence_equal"):
         a = {}
         if form.endswith("comparer"):
